@@ -95,7 +95,7 @@ func selftest(r *evid.Run) {
 		return
 	}
 	defer pool.Close()
-	pc := buildPipeCase("text", []string{"ok", "genErr", "ok"}, 4)
+	pc := buildPipeCase("text", []string{"ok", "ok", "ok"}, 4) // no failing block: every block is handed over to every stage
 	rp := pool.Call(pc.Req, 30*time.Second)
 	tr, why := pc.preprocess(rp, false)
 	if tr == nil {
